@@ -360,3 +360,22 @@ Proof.
   - vm_compute. repeat split; auto. eexists _, _. reflexivity.
   - vm_compute. repeat split; auto.
 Qed.
+
+(** * "matched" is a function of the values recorded so far, and only grows: a later value that does not match never
+    un-matches a span (the per-field flags are only ever set), whatever was entered or exited in between *)
+Lemma hit_app k v v1 v2 : hit k v (v1 ++ v2) = hit k v v1 || hit k v v2.
+Proof. unfold hit. apply existsb_app. Qed.
+Lemma satisfied_mono : forall d v1 v2, satisfied d v1 = true -> satisfied d (v1 ++ v2) = true.
+Proof.
+  intros d v1 v2. unfold satisfied. rewrite !forallb_forall. intros H kv Hkv. rewrite hit_app, (H kv Hkv). reflexivity.
+Qed.
+Lemma span_matches_mono : forall e m v1 v2 x,
+  span_matches_level e (mk_aspan m v1) x = true -> span_matches_level e (mk_aspan m (v1 ++ v2)) x = true.
+Proof.
+  intros e m v1 v2 x. unfold span_matches_level. rewrite !existsb_exists. intros (d & Hd & C). exists d. split; auto.
+  simpl in *. apply andb_true_iff in C. destruct C as [C A]. apply andb_true_iff in C. destruct C as [C S].
+  now rewrite C, A, (satisfied_mono d v1 v2 S).
+Qed.
+(** the concrete flags after recording [v1] then [v2] are those after recording [v1 ++ v2]: no history dependence *)
+Lemma record_order_irrelevant : forall c v1 v2, record_vals v2 (sm_of v1 c) = sm_of (v1 ++ v2) c.
+Proof. intros. symmetry. apply sm_of_app. Qed.
